@@ -26,6 +26,8 @@ sys.path.insert(0, os.path.dirname(os.path.abspath(__file__)))
 import common
 from common import fstr
 from translate import tx_specialfn
+from translate import tx_simresp
+import c17_sim
 
 warnings.filterwarnings('ignore')
 try:
@@ -38,7 +40,10 @@ except Exception:   # noqa
 TOL = Fraction(1, 10 ** 9)
 HELPERS = ['Lcapy/Proofs/SpecialFnBase.lean', 'Lcapy/Model/Evaluate.lean', 'Lcapy/Model/EvalBase.lean',
            'Lcapy/Model/EvalFallback.lean', 'Lcapy/Spec/SpecialFn.lean', 'Lcapy/Generated/SpecialFn.lean',
-           'Lcapy/Driver/C17.lean']
+           'Lcapy/Driver/C17.lean', 'Lcapy/Driver/C17Sim.lean', 'Lcapy/Model/SimBase.lean', 'Lcapy/Model/SimStep.lean',
+           'Lcapy/Model/Response.lean', 'Lcapy/Generated/SimCompanion.lean', 'Lcapy/Proofs/SimStepBase.lean',
+           'Lcapy/Proofs/ResponseBase.lean']
+PROPS = ['Lcapy/Props/C17.lean', 'Lcapy/Props/C17Sim.lean', 'Lcapy/Props/C17Resp.lean']
 
 CONT_FNS = ['heaviside', 'dirac', 'sign', 'rect', 'tri', 'ramp', 'rampstep', 'sincn', 'sincu', 'sinc']
 DISC_FNS = ['unitstep', 'unitimpulse', 'dtrect', 'dtsign']
@@ -355,8 +360,16 @@ def run(chk, replay=None):
     chk.coverage['translator'] = {'status': 'ok' if not info['unparsed'] else 'partial', 'definitions': len(info['defs']),
                                   'unparsed': info['unparsed'], 'lambdify_dict': info['table'], 'config': info['config'],
                                   'parsed_sinc': info.get('parsed_sinc'), 'not_modelled': info['not_modelled']}
+    text2, info2 = tx_simresp.generate(common.REPO)
+    gen2 = os.path.join(common.LEAN, 'Lcapy', 'Generated', 'SimCompanion.lean')
+    with common.LakeLock():
+        if not os.path.exists(gen2) or open(gen2).read() != text2:
+            with open(gen2, 'w') as f:
+                f.write(text2)
+    chk.coverage['translator_simresp'] = {'status': 'ok' if not info2['unparsed'] else 'partial', 'unparsed': info2['unparsed'],
+                                          'pruned_guards': info2['pruned_guards'], 'definitions': info2['defs']}
     # ---- 2. proofs
-    broken = chk.lean(['Lcapy/Props/C17.lean'], helper_files=HELPERS, leanchecker=(chk.tier == 'thorough'))
+    broken = chk.lean(PROPS, helper_files=HELPERS, leanchecker=(chk.tier == 'thorough'))
     chk.coverage['trusted_base'] = chk.coverage['trusted_base'] + [
         'hand reading of SymPy built-ins Heaviside (H0 = 1/2), DiracDelta, sign, Piecewise substitution order, and of '
         'lambdify\'s printing of Heaviside(x, 1/2) / Piecewise -> numpy.select(default=nan) (Model/Evaluate.lean), validated by the correspondence',
@@ -366,7 +379,9 @@ def run(chk, replay=None):
     ]
     chk.assumptions += ['floats: a numeric result r_float matches an exact rational r when |r_float - r| <= 1e-9 * scale '
                         '(scale = max(1, |r|, magnitude bound of the intermediate terms))',
-                        'exp/sin/cos/Bessel, SymPy limit fallbacks and sampled-response convergence are not modelled (claimed partial)']
+                        'exp/sin/cos/Bessel are not modelled; of the last clause the discrete objects ARE modelled (one simulator step / whole run over '
+                        'the C01 MNA model with generated companion formulas, the bilinear-family difference equation, the impulse-invariance convolution), '
+                        'the limit dt -> 0 itself is compared harness-side (refined grids against the symbolic response)']
     drv0 = chk.get_driver()
 
     class Strict:
@@ -1064,7 +1079,27 @@ def run(chk, replay=None):
             return ('pw', h[1], l_, r_, t_, parse_tokens(tk))
         raise ValueError(t)
 
+    SS = c17_sim.SimStreams(dict(chk=chk, drv=drv, L=L, rng=rng, quick=quick, counter=counter, disagree=disagree, ho=ho,
+                                 time_limit=time_limit, Timeout=Timeout, toks=toks))
+
+    def parse_netlist(text):
+        cpts = []
+        for part in text.split(' | '):
+            k, n1, n2, v = part.split()
+            if k in ('V', 'I'):
+                terms = []
+                for tm in v.split('+'):
+                    h = tm.split(':')
+                    terms.append(('dc', Fraction(h[1])) if h[0] == 'dc' else tuple(Fraction(z) for z in h))
+                cpts.append((k, int(n1), int(n2), terms))
+            else:
+                cpts.append((k, int(n1), int(n2), Fraction(v)))
+        return cpts
+
     def run_recorded(inp, origin):
+        if inp.get('stream') == 'sim':
+            SS.check_sim(parse_netlist(inp['netlist']), [Fraction(z) for z in inp['grid']], inp['integrator'], 'recorded', 'recorded', origin=origin)
+            return True
         if inp.get('stream') == 'table':
             check_table(inp['fn'], inp['var'], Fraction(inp['x']), origin=origin)
             return True
@@ -1151,6 +1186,26 @@ def run(chk, replay=None):
         check_response_convergence()
     for i in range(6 if quick else 40):
         check_response_delay(i)
+    # ---- round 3: simulator, response(), causal flag through operations
+    for i in range(14 if quick else 150):
+        tmpl, cpts = c17_sim.gen_circuit(rng)
+        gkind, grid = c17_sim.gen_grid(rng)
+        if i < 2:
+            chk.sample({'stream': 'sim', 'netlist': c17_sim.netlist_toks(cpts), 'grid': [fstr(z) for z in grid]})
+        for integ in (('trap', 'be') if i % 2 == 0 else (rng.choice(['trap', 'be']),)):
+            SS.check_sim(cpts, grid, integ, tmpl, gkind)
+    for i in range(8 if quick else 64):
+        SS.check_sim_exact(i)
+    for i in range(4 if quick else 30):
+        SS.check_sim_convergence(i)
+    for i in range(14 if quick else 150):
+        SS.check_resp_bilinear(i)
+    for i in range(10 if quick else 100):
+        SS.check_resp_ii(i)
+    for i in range(7 if quick else 35):
+        SS.check_resp_shift(i)
+    for i in range(48 if quick else 480):
+        SS.check_causal_ops(i)
     chk.coverage['harness_only'] = harness_only
 
     # ---- classification of broken obligations / correspondence with no counterexample
